@@ -446,7 +446,7 @@ impl Value {
                         Value::resolve(&call.args[2], ctx)
                     };
                 }
-                if call.args.len() == 2 {
+                if call.args.len() == 2 && operators::is_binary_operator(&call.func_name) {
                     let left = Value::resolve(&call.args[0], ctx)?;
                     match call.func_name.as_str() {
                         operators::ADD => return left + Value::resolve(&call.args[1], ctx)?,
@@ -581,7 +581,7 @@ impl Value {
                         _ => (),
                     }
                 }
-                if call.args.len() == 1 {
+                if call.args.len() == 1 && operators::is_unary_operator(&call.func_name) {
                     let expr = Value::resolve(&call.args[0], ctx)?;
                     match call.func_name.as_str() {
                         operators::LOGICAL_NOT => return Ok(Value::Bool(!expr.to_bool())),
